@@ -121,6 +121,15 @@ def c01(case, trace):
             got = [(ret[j], ret[j + 1]) for j in range(1, len(ret), 2)]
             if got != before[op[1]: op[2]] or after != before:
                 yield ("slice_spec", {"call": "slice"}, "slice does not report the list", i)
+        elif k == "indexof" and ok:
+            # an entry given as an object is found at its position; anything that is not an entry
+            # (other tlid, other track, or an impostor with other metadata) is not found
+            ntr = len(case["kinds"])
+            want = None if op[3] else next((j for j, x in enumerate(before) if x == (op[1], op[2] % ntr)), None)
+            got = None if ret[0] == 3 else ret[1]
+            if got != want:
+                yield ("index_spec", {"call": "indexof", "impostor": bool(op[3])},
+                       "index(tl_track) does not report the position of exactly that entry", i)
         elif k == "index" and ok and op[1] is not None:
             want = next((j for j, x in enumerate(before) if x[0] == op[1]), None)
             got = None if ret[0] == 3 else ret[1]
@@ -233,6 +242,25 @@ def c03(case, trace, settled=False):
                 if a2["queue_len"] == 0 and not a2["diverged"] and a2["current"] == old and a2["state"] != "stopped":
                     yield ("next_moves_on", {"call": "next", "consume": bool(q["modes"][0]), "random": bool(q["modes"][1])},
                            "next() without repeat left the old entry current and not stopped", j2)
+        if settled and k in ("next", "atf") and i > 0 and not t["exc"] and not t["diverged"]:
+            # with repeat on (single, consume off) and a backend whose answers depend on the track
+            # only, next() / the end of the track keeps playing as long as ANY entry is playable:
+            # the retry budget (twice the tracklist length) covers the rest of this pass and the
+            # whole next one
+            q = trace[i - 1]
+            used = sum(len(r["attempts"]) for r in trace[:i])
+            audio_ok = k == "next" or (q["a_uri"] is not None and q["a_state"] == "playing" and not q.get("atf_done"))
+            if q["queue_len"] == 0 and q["pending"] is None and q["state"] == "playing" and q["current"] is not None \
+                    and q["modes"][2] and not q["modes"][3] and not q["modes"][0] and audio_ok \
+                    and used >= len(case["script"]) \
+                    and any(case["kinds"][trk] == "playable" for _, trk in q["tl"]):
+                j3 = i
+                while j3 + 1 < len(trace) and trace[j3 + 1]["op"][0] == "deliver":
+                    j3 += 1
+                a3 = trace[j3]
+                if a3["queue_len"] == 0 and not a3["diverged"] and a3["state"] != "playing":
+                    yield ("repeat_finds_playable", {"call": k, "random": bool(q["modes"][1])},
+                           "repeat on and a playable entry exists, but playback did not continue", j3)
         pair = {"next": "getnext", "previous": "getprev", "atf": "geteot"}
         if settled and k in pair and i >= 2 and trace[i - 1]["op"][0] == pair[k] and trace[i - 1]["queue_len"] == 0:
             p = trace[i - 1]
